@@ -16,8 +16,9 @@ KINDS = list(worlds.OUTCOMES)
 HOOKEV = ('LsetUpBegin', 'LtearDownBegin', 'LtestSetUp', 'LtestTearDown')
 
 
-def with_writes(rng, kind, counter, density=0.6, redirects=False):
-    """the outcome script `kind` with writes sprinkled over every phase"""
+def with_writes(rng, kind, counter, density=0.6, redirects=False, only=None):
+    """the outcome script `kind` with writes sprinkled over every phase
+    (only: every write of the test goes to that one stream)"""
     t = copy.deepcopy(worlds.OUTCOMES[kind])
     t['kind'] = kind
 
@@ -29,6 +30,8 @@ def with_writes(rng, kind, counter, density=0.6, redirects=False):
              'via': rng.choice(['text', 'text', 'text', 'buffer'])}
         if a['via'] == 'buffer' and rng.random() < 0.3:
             a['rawhex'] = rng.choice(['fffe', 'c3', '80', 'edA080'.lower()])   # not valid UTF-8
+        if only:
+            a['stream'] = only
         return a
 
     def sprinkle(actions):
@@ -75,7 +78,8 @@ def with_writes(rng, kind, counter, density=0.6, redirects=False):
     return t
 
 
-def make_world(wid, rng, kinds, two_layers=False, redirects=False):
+def make_world(wid, rng, kinds, two_layers=False, redirects=False, single=False):
+    """single: most tests write to exactly one of the two streams"""
     counter = [0]
     tests, classes = {}, {}
     layers = {'L1': {'kind': 'class', 'bases': [],
@@ -86,7 +90,9 @@ def make_world(wid, rng, kinds, two_layers=False, redirects=False):
     ids = []
     for k, kind in enumerate(kinds):
         tid = 't%d' % (k + 1)
-        tests[tid] = with_writes(rng, kind, counter, redirects=redirects)
+        only = rng.choice(['stdout', 'stderr', 'stdout', 'stderr', None]) if single else None
+        tests[tid] = with_writes(rng, kind, counter, redirects=redirects, only=only,
+                                 density=0.75 if single else 0.6)
         ids.append(tid)
     if two_layers and len(ids) > 1:
         classes['TA'] = {'tests': ids[:1], 'layer': 'L1'}
@@ -95,6 +101,75 @@ def make_world(wid, rng, kinds, two_layers=False, redirects=False):
         classes['TA'] = {'tests': ids, 'layer': 'L1'}
     return {'id': wid, 'layers': layers, 'layer_order': list(layers),
             'classes': classes, 'tests': tests}
+
+
+CHILD_KINDS = [k for k in KINDS if k not in ('sysexit', 'odd_exc')]
+CHILD_BAD = [k for k in CHILD_KINDS if k in worlds.SINGLE_EVENT_BAD + worlds.MULTI_EVENT]
+
+
+def make_child_world(wid, rng, resume):
+    """two probe layers (every hook; testSetUp / testTearDown write a token to
+    sys.stderr / sys.stdout between tests), three tests each, most of them
+    failing after writing to stderr only / stdout only / both; resume: a first
+    layer whose tearDown raises NotImplementedError, so that the probe layers
+    are resumed in subprocesses (otherwise the run uses -j 2)"""
+    counter = [0]
+    hooks = ['setUp', 'tearDown', 'testSetUp', 'testTearDown']
+    layers, classes, tests, order = {}, {}, {}, []
+    if resume:
+        layers['L0'] = {'kind': 'class', 'bases': [], 'hooks': hooks, 'tearDown': 'notimpl'}
+        classes['T0'] = {'tests': ['t0'], 'layer': 'L0'}
+        tests['t0'] = dict(copy.deepcopy(worlds.OUTCOMES['pass']), kind='pass')
+        order.append('L0')
+    n = 0
+    for lname in ('L1', 'L2'):
+        ids = []
+        for _ in range(3):
+            n += 1
+            kind = rng.choice(CHILD_BAD) if rng.random() < 0.7 else rng.choice(CHILD_KINDS)
+            tests['t%d' % n] = with_writes(
+                rng, kind, counter, density=0.75,
+                only=rng.choice(['stderr', 'stderr', 'stdout', None]))
+            ids.append('t%d' % n)
+        hw = {}
+        for h in ('testSetUp', 'testTearDown'):
+            if rng.random() < 0.7:
+                counter[0] += 1
+                hw[h] = [{'tok': 'QZ%dQ' % counter[0], 'nl': True, 'via': 'text',
+                          'stream': rng.choice(['stderr', 'stderr', 'stdout'])}]
+        layers[lname] = {'kind': 'class', 'bases': [], 'hooks': hooks, 'writes': hw}
+        classes['T' + lname] = {'tests': ids, 'layer': lname}
+        order.append(lname)
+    return {'id': wid, 'layers': layers, 'layer_order': order, 'classes': classes, 'tests': tests}
+
+
+def record_cli(case, res, ref):
+    """a command-line run: the parent's stdout / stderr are the runner's
+    output; stream identities are seen by the hooks inside each process"""
+    rec = record(case, dict(res, stdout_restored=False, stderr_restored=False,
+                            crashed='TIMEOUT' if res.get('timed_out') else ''), ref)
+    evs = res['events']
+    children = {e['pid'] for e in evs if e['e'] == 'ProcStart' and e.get('role') == 'child'}
+    procs = {}
+    for e in evs:
+        if e['e'] not in HOOKEV and e['e'] != 'T':
+            continue
+        p = procs.setdefault(e['pid'], {'child': e['pid'] in children, 'base': None,
+                                        'hooks': [], 'phases': []})
+        pair = [e['out'], e['err']]
+        if e['e'] == 'T':
+            p['phases'].append(pair)
+        elif p['base'] is None and not p['phases']:
+            p['base'] = pair
+        else:
+            p['hooks'].append(pair)
+    rec['procs'] = [p for p in procs.values() if p['base'] is not None]
+    rec['hooks'], rec['phases'] = [], []
+    rec['hookToks'] = [e['tok'] for e in evs if e['e'] == 'Write' and not e.get('t')]
+    rec['child'] = True
+    # both names denote one stream object wherever a test wrote something
+    rec['merged'] = all(e['pid'] in children for e in evs if e['e'] == 'Write' and e.get('t'))
+    return rec
 
 
 def record(case, res, ref):
@@ -122,6 +197,7 @@ def record(case, res, ref):
         'phases': [s for e in evs if e['e'] == 'T' for s in (e['out'], e['err'])],
         'restored': bool(res.get('stdout_restored') and res.get('stderr_restored')),
         'crashed': res.get('crashed', '') or '',
+        'child': False, 'procs': [], 'hookToks': [],
     }
 
 
@@ -141,9 +217,14 @@ def run_cases(chk, cases, label):
     refs = runlib.compute_refs([c['world'] for c in cases])
     jobs = [{'id': c['id'], 'world': c['world'],
              'args': abstract.concrete_args(c['o']),
-             'stdout_kind': c['stdout_kind']} for c in cases]
-    results = runlib.run_inproc_many(jobs)
-    recs = [record(c, r, ref) for c, r, ref in zip(cases, results, refs)]
+             'stdout_kind': c['stdout_kind'], 'xml': bool(c.get('xml'))}
+            for c in cases if not c.get('cli')]
+    inproc = iter(runlib.run_inproc_many(jobs))
+    cli = iter(runlib.run_cli_many([(c['world'], abstract.concrete_args(c['o']), {'timeout': 120})
+                                    for c in cases if c.get('cli')]))
+    results = [next(cli) if c.get('cli') else next(inproc) for c in cases]
+    recs = [(record_cli if c.get('cli') else record)(c, r, ref)
+            for c, r, ref in zip(cases, results, refs)]
     verdicts = validate(chk, recs, label)
     drift = 0
     for c, r, rec in zip(cases, results, recs):
@@ -161,8 +242,9 @@ def run_cases(chk, cases, label):
         if clause:
             kinds = [c['world']['tests'][t].get('kind', '') for t in c['world']['tests']]
             chk.violation('%s|%s' % (clause, arg if clause in ('C13:not-restored', 'C13:run-aborted') else 'test'),
-                          '%s (%s) for kinds %s, options %s, streams %s'
-                          % (clause, arg, kinds, c['o'], c['stdout_kind']),
+                          '%s (%s) for kinds %s, options %s%s, streams %s'
+                          % (clause, arg, kinds, c['o'], ' + --xml DIR' if c.get('xml') else '',
+                             'command line, layers in subprocesses' if c.get('cli') else c['stdout_kind']),
                           {'case': c, 'record': rec,
                            'stdout_tail': r.get('stdout', '')[-3000:],
                            'stderr_tail': r.get('stderr', '')[-1500:],
@@ -175,13 +257,19 @@ def run(chk, tier, seed, replay=None):
                 'of <= 2 writes and <= 2 (thorough 3) result events of every kind incl. a '
                 'never-started skip, with and without --buffer: NoLeak, Complete, Attributed, '
                 'Restored, NeverReplaced, NotAborted; four deviation configs must each '
-                'produce a counterexample. (2) real in-process runs: every ordered pair '
+                'produce a counterexample; a history may start in a layer subprocess '
+                '(sys.stderr rebound to sys.stdout; deviation OriginalsAtConfigure). '
+                '(2) real in-process runs: every ordered pair '
                 '(thorough: also triples) of the 16 outcome kinds (multi-event tests, '
                 'subtests, skips from decorator / setUp / body, xfail, unexpected success, '
                 'SystemExit) with writes sprinkled over setUp / body / subtests / tearDown / '
                 'cleanups (stdout / stderr, with / without newline, via .buffer, none), '
                 '--buffer on / off, -v 0..2, sys.stdout a real file / a StringIO / one object '
-                'for both streams; TLC decides every clause from the recorded history and '
+                'for both streams; --buffer with --xml DIR, most tests writing to exactly one '
+                'stream; command-line runs with --buffer whose layers run in subprocesses '
+                '(-j 2 / resumed after a tearDown that is not implemented): identities seen by '
+                'the hooks inside each process against those before its first test, tokens the '
+                'hooks write between tests; TLC decides every clause from the recorded history and '
                 'output; distinct = distinct (per-test write/event history, options)')
     chk.assumptions += ['where a write sits relative to the result events of its test is measured '
                         'under stock unittest on the same interpreter',
@@ -198,7 +286,7 @@ def run(chk, tier, seed, replay=None):
             ['StdStreams_redir_q'] if tier == 'quick' else ['StdStreams_redir', 'StdStreams_deep']):
         chk.add_tlc(cfg, tlc.run('StdStreams', cfg, timeout=1800))
     for dev in ('SecondEventReadsOriginal', 'SkipLeavesOrig', 'NoTruncate', 'StopKeepsBuffer',
-                'RestoreOnlyIfInstalled'):
+                'RestoreOnlyIfInstalled', 'OriginalsAtConfigure'):
         res = tlc.run('StdStreams', 'StdStreams_dev_' + dev, timeout=600)
         chk.add_tlc('dev_' + dev, res, expect_ok=False)
         if not res.violation:
@@ -235,6 +323,27 @@ def run(chk, tier, seed, replay=None):
         cases.append({'id': cid, 'world': dict(w, id=cid),
                       'o': {'verbose': rng.choice([0, 1, 2]), 'buffer': True, 'pm': True},
                       'stdout_kind': rng.choice(['merged', 'file'])})
+    # --buffer together with --xml DIR (the XML wrapper sits between the result
+    # object and the formatter); most tests write to exactly one stream
+    rng2 = random.Random(seed * 7919 + 131)
+    xseqs = [[k] for k in KINDS] + [list(p) for p in itertools.product(KINDS, repeat=2)
+                                    if rng2.random() < (0.35 if tier == 'quick' else 1.0)]
+    for n, kinds in enumerate(xseqs):
+        cid = 'x%da' % n
+        w = make_world(cid, rng2, kinds, two_layers=rng2.random() < 0.25, single=True)
+        cases.append({'id': cid, 'world': w, 'xml': True,
+                      'o': {'verbose': rng2.choice([0, 1, 2]), 'buffer': True},
+                      'stdout_kind': rng2.choice(['merged', 'merged', 'file'])})
+    # --buffer in layer subprocesses, through the command line: -j 2, and
+    # resumed after a layer whose tearDown raises NotImplementedError
+    for n in range(16 if tier == 'quick' else 80):
+        cid = 'p%da' % n
+        resume = n % 2 == 1
+        w = make_child_world(cid, rng2, resume)
+        cases.append({'id': cid, 'world': w, 'cli': True,
+                      'o': {'verbose': rng2.choice([0, 1, 2]), 'buffer': n % 8 != 6,
+                            'j': 1 if resume else 2},
+                      'stdout_kind': 'file'})
     chk.sample({'world': cases[37]['world'], 'options': cases[37]['o'],
                 'streams': cases[37]['stdout_kind']})
     drift = run_cases(chk, cases, 'runs')
